@@ -1,5 +1,6 @@
 import BS.Proofs.Reader
 import BS.Proofs.Flat
+import BS.Proofs.Scanner
 /-!
 # C17 — readers deliver the same rows however they are read
 
@@ -362,6 +363,26 @@ theorem flat_drain {α β} (g : α → List β) (u : Up α) (hu : u.ended = fals
 example : drain (flatRd (upRd Nat) (fun x => List.replicate x x) (fun s => Up.mu s + (Up.rem s).length + 3))
     (fun _ => 2) 20 0 ⟨⟨[3, 0, 2], [(1, false), (0, false), (5, true)], false⟩, [], [], false⟩ = [3, 3, 3, 2, 2] := by
   decide
+
+/-! ### sliceio.Scanner -/
+
+/-- **scanner_spec**: `for sc.Scan(…)` over any lawful reader — in particular over a pipeline of the readers above — yields
+exactly the rows that reader still holds, in order, for every internal buffer size `c ≥ 1`. -/
+theorem scanner_spec {α} (U : Rd α) (rem : U.σ → List α) (mu : U.σ → Nat) (h : Lawful U rem mu) (c : Nat) (hc : 0 < c)
+    (fuelOf : U.σ → Nat) (hf : ∀ s, mu s + (rem s).length < fuelOf s) (s : U.σ) :
+    scanAll U c fuelOf ((rem s).length + 1) ⟨s, [], false⟩ = rem s := by
+  have := scanAll_spec U rem mu h c hc fuelOf hf ((rem s).length + 1) ⟨s, [], false⟩ (by simp [srem])
+  simpa [srem] using this
+
+/-- over every scripted upstream (every chunking, zero-row reads, both placements of end-of-stream) -/
+theorem scanner_over_script {α} (u : Up α) (hu : u.ended = false) (c : Nat) (hc : 0 < c) :
+    scanAll (upRd α) c (fun s => Up.mu s + (Up.rem s).length + 1) (u.rest.length + 1) ⟨u, [], false⟩ = u.rest := by
+  have := scanner_spec (upRd α) Up.rem Up.mu (up_lawful α) c hc (fun s => Up.mu s + (Up.rem s).length + 1)
+    (fun s => Nat.lt_succ_self _) u
+  simpa [Up.rem, hu] using this
+
+example : scanAll (upRd Nat) 2 (fun s => Up.mu s + (Up.rem s).length + 1) 9
+    ⟨⟨[3, 0, 2, 7], [(1, false), (0, false), (5, false), (0, true)], false⟩, [], false⟩ = [3, 0, 2, 7] := by decide
 
 /-! ### corollaries: the drained row sequence, for every destination-size sequence -/
 
